@@ -1,6 +1,8 @@
 package main
 
 import (
+	"crypto/sha256"
+	"encoding/hex"
 	"bufio"
 	"encoding/json"
 	"fmt"
@@ -135,6 +137,11 @@ func writeResults(out string, res []Result) error {
 	w := bufio.NewWriterSize(fh, 1<<20)
 	enc := json.NewEncoder(w)
 	for _, r := range res {
+		if len(r.Key) > 48 {
+			// the key only serves to count distinct cases: a digest keeps result files and the checker's memory small
+			h := sha256.Sum256([]byte(r.Key))
+			r.Key = hex.EncodeToString(h[:12])
+		}
 		if err := enc.Encode(r); err != nil {
 			return err
 		}
